@@ -44,6 +44,15 @@ func vArmAfterCfg(x *xferWorld) func() bool {
 			armed = true
 		}
 	}
+	// with a tunnel the CFG and everything after it travel over connections that are dialled later
+	x.chunkHooks = append(x.chunkHooks, func(l *verifsim.Link, d []byte) {
+		if cfgWrites > 0 {
+			armed = true
+		}
+		if bytes.Contains(d, []byte("#CFG:")) {
+			cfgWrites++
+		}
+	})
 	return func() bool { return armed }
 }
 
@@ -70,6 +79,8 @@ func vOnChunk(rc *runCtx, x *xferWorld, armed func() bool, pm int, f func()) *bo
 			hook(l, d)
 		}
 	}
+	// tunnel connections come into being later: their writes count as well
+	x.chunkHooks = append(x.chunkHooks, hook)
 	return fired
 }
 
